@@ -301,6 +301,75 @@ def store_part(rep, tier):
                 "op": ["set", "range_x", 1]})
 
 
+# ------------------------------------- (A2) several profiles, one process
+
+PAIR_PROFILES = {
+    "A": {"model_key": "sneddon_spher_approx", "fit param E value": 50.0,
+          "fit param E vary": False},
+    "B": {"model_key": "sneddon_spher_approx",
+          "fit param R value": 1.6e-5, "fit param nu value": 0.4},
+    "C": {"model_key": "sneddon_spher_approx"},
+    "D": {"model_key": "hertz_cone", "fit param E value": 77.0,
+          "fit param contact_point vary": False},
+    "E": {"model_key": "hertz_cone"},
+}
+
+
+def pair_case(case):
+    """the fit parameters of a profile are its model's defaults overridden
+    by exactly *its own* entries - whatever other profiles were used in
+    the process before"""
+    from nanite.cli.profile import Profile, DEFAULTS
+    from .. import state
+    state.restore()
+    out = []
+    for k, name in enumerate(case["seq"]):
+        path = new_path()
+        d = dict(DEFAULTS)
+        d.update(PAIR_PROFILES[name])
+        with open(path, "w") as fd:
+            json.dump(d, fd)
+        try:
+            P = Profile(path).get_fit_params()
+            got = {p: (P[p].value, P[p].vary) for p in P}
+        except BaseException as e:
+            if isinstance(e, (KeyboardInterrupt, SystemExit, MemoryError)):
+                raise
+            got = repr(e)
+        exp = ref_fit_params(d["model_key"], d)
+        if not isinstance(got, dict) or set(got) != set(exp) or any(
+                cn.norm(got[p]) != cn.norm(exp[p]) for p in exp):
+            out.append(V(PROP, "fit-params", site="Profile.get_fit_params",
+                         witness="profiles " + "->".join(case["seq"][:k + 1]),
+                         detail=f"profile {name} (entries "
+                         f"{PAIR_PROFILES[name]}) used after "
+                         f"{case['seq'][:k]}: returned {got}, expected "
+                         f"{exp}", case=case, kind="pair"))
+            break
+        os.remove(path)
+    return out
+
+
+def _pair_work(cases):
+    return [pair_case(c) for c in cases]
+
+
+def pair_part(rep, tier):
+    names = sorted(PAIR_PROFILES)
+    seqs = [list(q) for n in (2, 3) for q in itertools.product(names,
+                                                                repeat=n)
+            if n == 2 or tier != "quick"]
+    cases = [{"kind": "pair", "seq": q} for q in seqs]
+    n = 0
+    for res in pmap(_pair_work, chunks(cases, 8), inline_below=1):
+        for vs in res:
+            n += 1
+            rep.extend(vs)
+    rep.set("profile_sequences", n)
+    rep.add("transitions", n)
+    rep.add("traces_validated_against_impl", n)
+
+
 # ------------------------------------------------ (C) scripted setup
 
 class Recorder(io.StringIO):
@@ -730,6 +799,8 @@ def replay(doc):
         vs, _, path = store_transition(tuple(case["state"]),
                                        tuple(case["op"]))
         return vs
+    if kind == "pair":
+        return pair_case(case)
     if kind == "setup":
         return setup_case(case)[0]
     if kind == "fit":
@@ -747,6 +818,7 @@ def run(tier):
     rep = Report(PROP, tier, LEVEL)
     c09.ensure_user_ts()
     store_part(rep, tier)
+    pair_part(rep, tier)
     cases = scripts(tier)
     produced = {}
     nasked = 0
